@@ -262,6 +262,59 @@ fn snapshot(c: &Raw) -> (String, String) {
     (format!("[{}]", chain.join(" ")), format!("[{}]", idx.join(" ")))
 }
 
+/// one list of a composite cache: chain (MRU first, `key:value`) and the chain positions the index points at
+fn snap_list<E, S>(c: &RawLRU<FK, FV, E, S>) -> String {
+    let a = c.verif_audit(1 << 16);
+    let chain: Vec<String> = a.forward.iter().map(|(_, k, v)| format!("{}:{}", k.n, v.n)).collect();
+    let mut pos: Vec<usize> = Vec::new();
+    for (node, _, _) in &a.index {
+        if let Some(p) = a.forward.iter().position(|(n, _, _)| n == node) {
+            pos.push(p);
+        }
+    }
+    pos.sort_unstable();
+    let pos: Vec<String> = pos.iter().map(|k| k.to_string()).collect();
+    format!("[{}]@[{}]", chain.join(" "), pos.join(" "))
+}
+
+impl Obj {
+    /// (caps, params, lists) of a composite cache in the list numbering of lean/Caches/Model/AbortG.lean
+    fn snap_composite(&self) -> Option<(String, String, String)> {
+        match self {
+            Obj::Slru(c) => {
+                let (p, q) = c.verif_segments();
+                Some((format!("{},{}", p.cap(), q.cap()), "0,0,0".into(), format!("{};{}", snap_list(p), snap_list(q))))
+            }
+            Obj::TwoQ(c) => {
+                let (r, f, g, rs) = c.verif_lists();
+                Some((
+                    format!("{},{},{}", r.cap(), f.cap(), g.cap()),
+                    format!("{},{},0", c.cap(), rs),
+                    format!("{};{};{}", snap_list(r), snap_list(f), snap_list(g)),
+                ))
+            }
+            Obj::Arc(c) => {
+                let (t1, b1, t2, b2) = c.verif_lists();
+                Some((
+                    format!("{},{},{},{}", t1.cap(), t2.cap(), b1.cap(), b2.cap()),
+                    format!("{},0,{}", c.cap(), c.partition()),
+                    format!("{};{};{};{}", snap_list(t1), snap_list(t2), snap_list(b1), snap_list(b2)),
+                ))
+            }
+            _ => None,
+        }
+    }
+    fn comp_name(&self) -> &'static str {
+        match self {
+            Obj::Raw(_) => "rawlru",
+            Obj::Slru(_) => "slru",
+            Obj::TwoQ(_) => "twoq",
+            Obj::Arc(_) => "arc",
+            Obj::Wt(_) => "wtinylfu",
+        }
+    }
+}
+
 struct Case {
     head: String,
     comp: String,
@@ -339,6 +392,8 @@ fn run(case: &Case, target: u64) -> (u64, Option<&'static str>, Option<String>, 
         Obj::Raw(c) => c.cap(),
         _ => 0,
     };
+    // the same for the composite caches (model: lean/Caches/Model/AbortG.lean); the record goes out as `INJC`
+    let mut cpre: Option<(String, String, String)> = if target != 0 { obj.snap_composite() } else { None };
     for line in &case.ops {
         let fired_before = FIRED.with(|c| c.get()).is_some();
         let _ = take_drops();
@@ -347,6 +402,27 @@ fn run(case: &Case, target: u64) -> (u64, Option<&'static str>, Option<String>, 
         let dropped = take_drops();
         match catch_unwind(AssertUnwindSafe(|| obj.audit())) {
             Ok(Ok(())) => {
+                if let (Some(p), false) = (&cpre, fired_before) {
+                    let fired_now = FIRED.with(|f| f.get());
+                    if let Some(post) = obj.snap_composite() {
+                        if let Some(site) = fired_now {
+                            inj = Some(format!(
+                                "C comp={} | caps={} | par={} | site={} | op={} | pre={} | post={} | ppost={}",
+                                obj.comp_name(),
+                                p.0,
+                                p.1,
+                                site.replace(' ', "_"),
+                                line,
+                                p.2,
+                                post.2,
+                                post.1
+                            ));
+                            cpre = None;
+                        } else {
+                            cpre = Some(post);
+                        }
+                    }
+                }
                 if let (Obj::Raw(c), Some(p)) = (&obj, &pre) {
                     let fired_now = FIRED.with(|f| f.get());
                     if !fired_before {
@@ -435,7 +511,11 @@ fn main() {
         for i in 1..=n {
             let (_, site, problem, inj) = run(case, i);
             if let Some(r) = inj {
-                writeln!(out, "INJ {} | i={} | {}", case.head, i, r).unwrap();
+                if let Some(rest) = r.strip_prefix("C ") {
+                    writeln!(out, "INJC {} | i={} | {}", case.head, i, rest).unwrap();
+                } else {
+                    writeln!(out, "INJ {} | i={} | {}", case.head, i, r).unwrap();
+                }
             }
             if let Some(s) = site {
                 fired += 1;
